@@ -96,10 +96,16 @@ PROPERTIES = {
                        "(all public methods incl. evaluate/to_ge_polyhedron/solve), two-configurator cache scenario",
     },
     "C10": {
+        "harness_modules": ["contracts.c10"],
+        "lean": True,
         "rt": ["rt.logic:c10_validation"],
         "level": "other",
         "assumptions": S_ALL,
-        "explanation": "bounded stand-in only so far: adversarial id/bounds palettes in both directions",
+        "explanation": "deductive: the key functions of errors()'s two ambivalence checks and of its duplicate-edge check, extracted "
+                       "from the real source on every run, identify two nodes exactly when id and definition agree (all ids, bounds, "
+                       "signs, values, child ids); with Lean's card_image_comp_iff this makes each cardinality check accept "
+                       "exactly the single-definition models. bounded stand-in: traversal (_occurrences), cycle check, glue, both "
+                       "directions on adversarial id/bounds palettes.",
     },
     "C11": {"rt": ["rt.arrays:c11_reduce"], "level": "other", "assumptions": S_ALL,
             "explanation": "bounded stand-in only so far: matrices up to 3x3 against brute-force solution sets"},
